@@ -329,7 +329,7 @@ End C01_multitrip.
    The feasibility group that runs on every document (`feasible4`) evaluates every rule of Valid.feasible_viols /
    xfeasible_viols on the tour WITHOUT its required-break activities, with the clock that skips the reported break intervals;
    for a problem without required breaks it IS those two functions *)
-Theorem C01_no_required_breaks_is_feasible_viols : forall P S, feasible4 X0 P S = feasible_viols P S ++ xfeasible_viols P S.
+Theorem C01_no_required_breaks_is_feasible_viols : forall P S, feasible4 X0 XS0 P S = feasible_viols P S ++ xfeasible_viols P S.
 Proof. exact feasible4_X0. Qed.
 
 (* the clock (arrival = adv B departure travel-time, end of work = adv B start service-time) is sound and complete for its
@@ -352,9 +352,9 @@ Proof. exact (fun dur B k l d0 i => reserved_from_nil dur B k l d0 i). Qed.
 (* non-vacuity / witnesses: both example documents pass the whole checker; a break that is listed while the vehicle reaches the
    next job as if it had not stopped is FReservedTime; the document without the break is exactly [FRequiredBreakMissing 0] *)
 Theorem C01_required_break_examples :
-  valid4 ex_Xq ex_P ex_Sq = [] /\ valid4 ex_Xt ex_P ex_St = []
-  /\ In (FReservedTime 0 1) (feasible4 ex_Xt ex_P ex_St_bad)
-  /\ feasible4 ex_Xq ex_P ex_S = [FRequiredBreakMissing 0].
+  valid4 ex_Xq XS0 ex_P ex_Sq = [] /\ valid4 ex_Xt XS0 ex_P ex_St = []
+  /\ In (FReservedTime 0 1) (feasible4 ex_Xt XS0 ex_P ex_St_bad)
+  /\ feasible4 ex_Xq XS0 ex_P ex_S = [FRequiredBreakMissing 0].
 Proof.
   split; [exact (proj1 ex_required_break)|]. split; [exact (proj1 (proj2 ex_required_break))|].
   split; [exact (proj1 (proj2 (proj2 ex_required_break)))|exact (proj1 (proj2 (proj2 (proj2 ex_required_break))))].
